@@ -98,8 +98,30 @@ def handleThole (args : List String) : Verdict :=
   | some (v, []) => v
   | _ => { agree := false, msg := "bad-line", tag := "bad" }
 
+/-- segments with sites of different ranks: the segment energy is the sum of the site-pair energies, whichever segment is passed first -/
+def handleSeg (args : List String) : Verdict :=
+  match args with
+  | na :: nb :: rest =>
+    match na.toNat?, nb.toNat? with
+    | some nA, some nB =>
+      let ranks := rest.take (nA + nB)
+      match (rest.drop (nA + nB)) with
+      | [m1, e1, m2, e2, m3, e3, m4, e4] =>
+        match parseRat2 m1 e1, parseRat2 m2 e2, parseRat2 m3 e3, parseRat2 m4 e4 with
+        | some eAB, some eBA, some esum, some sc =>
+          let tol : Rat := 1 / 1000000000
+          let ok := close eAB esum (sc + 1 / 1000000) tol && close eBA esum (sc + 1 / 1000000) tol
+          let mixed := ranks.eraseDups.length > 1
+          let msg := s!"SEGMENT-ENERGY ranks {ranks}: E(A,B) = {eAB}, E(B,A) = {eBA}, sum of the site-pair energies = {esum}"
+          ({ agree := ok, propOk := ok, msg := msg, tag := s!"seg:{if mixed then "mixed-ranks" else "uniform-rank"}:{nA}x{nB}" } : Verdict)
+        | _, _, _, _ => { agree := false, msg := "bad-line seg values", tag := "bad" }
+      | _ => { agree := false, msg := "bad-line seg arity", tag := "bad" }
+    | _, _ => { agree := false, msg := "bad-line seg header", tag := "bad" }
+  | _ => { agree := false, msg := "bad-line seg", tag := "bad" }
+
 def handle (args : List String) : Verdict :=
   match args with
+  | "seg" :: rest => handleSeg rest
   | "pair" :: rest => handlePair rest
   | "field" :: rest => handleField rest
   | "thole" :: rest => handleThole rest
